@@ -582,6 +582,33 @@ struct AssignConv<To, From, false> {
     static To go(const From&) { return To{}; }
 };
 
+// Value categories of the foreign (duration) operand: as_quantity / implicit conversion are detected and evaluated
+// for every cv-ref form X in {D&, const D&, D (rvalue), const D (const rvalue: a function returning `const D`, or
+// std::move of a const duration)}; a form the library rejects is reported by name, not as a build failure.
+template <class...> struct VoidT0 { using type = void; };
+template <class X, class = void> struct CanAsQ : std::false_type {};
+template <class X>
+struct CanAsQ<X, typename VoidT0<decltype(au::as_quantity(std::declval<X>()))>::type> : std::true_type {};
+template <class X, class R, bool Ok = CanAsQ<X>::value>
+struct AsQ {
+    static constexpr bool ok = true;
+    static R go(X&& x) { const auto q = au::as_quantity(std::forward<X>(x)); return q.in(decltype(q)::unit); }
+};
+template <class X, class R> struct AsQ<X, R, false> { static constexpr bool ok = false; static R go(X&&) { return R{}; } };
+template <class To, class X, bool Ok = std::is_convertible<X, To>::value>
+struct ConvX {
+    static constexpr bool ok = true;
+    static To go(X&& x) { To t = std::forward<X>(x); return t; }
+};
+template <class To, class X> struct ConvX<To, X, false> { static constexpr bool ok = false; static To go(X&&) { return To{}; } };
+template <class From, class To> std::string forms_convertible() {      // From, From&, const From&, From&&, const From, const From&&
+    std::string s;
+    s += b01(std::is_convertible<From, To>::value); s += b01(std::is_convertible<From&, To>::value);
+    s += b01(std::is_convertible<const From&, To>::value); s += b01(std::is_convertible<From&&, To>::value);
+    s += b01(std::is_convertible<const From, To>::value); s += b01(std::is_convertible<const From&&, To>::value);
+    return s;
+}
+
 // One duration type: rep R, period std::ratio<N, D> as written.
 template <class R, std::intmax_t N, std::intmax_t D>
 struct TI {
@@ -608,11 +635,19 @@ struct TI {
         s += std::string(" conv_q2d=") + b01(std::is_convertible<CQ, Dur>::value);
         s += std::string(" conv_d2g=") + b01(std::is_convertible<Dur, GQ>::value);
         s += std::string(" conv_g2d=") + b01(std::is_convertible<GQ, Dur>::value);
+        // as_quantity(x) for x of type D, D&, const D&, D&&, const D, const D&&
+        s += std::string(" asq_forms=") + b01(CanAsQ<Dur>::value) + b01(CanAsQ<Dur&>::value) + b01(CanAsQ<const Dur&>::value) +
+             b01(CanAsQ<Dur&&>::value) + b01(CanAsQ<const Dur>::value) + b01(CanAsQ<const Dur&&>::value);
+        s += " conv_forms_c=" + forms_convertible<Dur, CQ>() + " conv_forms_g=" + forms_convertible<Dur, GQ>() +
+             " conv_forms_n=" + forms_convertible<Dur, NQ>();
+        s += std::string(" cons_forms=") + b01(std::is_constructible<CQ, const Dur>::value) + b01(std::is_constructible<CQ, const Dur&&>::value) +
+             b01(std::is_assignable<CQ&, const Dur>::value) + b01(std::is_assignable<CQ&, const Dur&&>::value);
         const Dur z = au::ZERO;                       // zero.hh: Zero converts to every duration
         const CQ zq = au::ZERO;
         s += " zero=" + Txt<R>::str(z.count()) + " zeroq_eq=" + b01(zq.in(U{}) == z.count());
         return s;
     }
+    static const Dur make_const(R v) { return Dur{v}; }      // a function returning a const-qualified duration
     static void add(std::string& s, const char* name, bool avail, R c, R v) {
         s += std::string(" ") + name + "=" + (avail ? Txt<R>::str(c) : std::string("unavailable")) + ":" + b01(avail && same_bits(c, v));
     }
@@ -626,6 +661,17 @@ struct TI {
         add(s, "asq", true, q.in(U{}), v);
         add(s, "asq_lv", true, au::as_quantity(dl).in(U{}), v);
         add(s, "asq_rv", true, au::as_quantity(Dur{v}).in(U{}), v);              // rvalue: CorrespondingQuantity<T>
+        {   // every value category, guarded
+            Dur m1{v}, m2{v};
+            add(s, "asq_xv", AsQ<Dur, R>::ok, AsQ<Dur, R>::go(std::move(m1)), v);                       // D&& (xvalue)
+            add(s, "asq_crv", AsQ<const Dur, R>::ok, AsQ<const Dur, R>::go(make_const(v)), v);          // const D prvalue
+            add(s, "asq_cxv", AsQ<const Dur, R>::ok, AsQ<const Dur, R>::go(std::move(d)), v);           // const D&& (move of const)
+            add(s, "ctor_lv", ConvX<CQ, Dur&>::ok, ConvX<CQ, Dur&>::go(dl).in(U{}), v);
+            add(s, "ctor_xv", ConvX<CQ, Dur>::ok, ConvX<CQ, Dur>::go(std::move(m2)).in(U{}), v);
+            add(s, "ctor_crv", ConvX<CQ, const Dur>::ok, ConvX<CQ, const Dur>::go(make_const(v)).in(U{}), v);
+            add(s, "ctor_cxv", ConvX<CQ, const Dur>::ok, ConvX<CQ, const Dur>::go(std::move(d)).in(U{}), v);
+            add(s, "gctor_crv", ConvX<GQ, const Dur>::ok, ConvX<GQ, const Dur>::go(make_const(v)).in(GU{}), v);
+        }
         add(s, "ctor", ImplicitConv<CQ, Dur>::ok, ImplicitConv<CQ, Dur>::go(d).in(U{}), v);   // implicit constructor
         add(s, "assign_q", AssignConv<CQ, Dur>::ok, AssignConv<CQ, Dur>::go(d).in(U{}), v);   // q = d
         add(s, "back", BackVia<CQ, ExpectBack>::ok, BackVia<CQ, ExpectBack>::count(q), v);    // as_chrono_duration
@@ -654,6 +700,15 @@ template <class...> struct VoidT { using type = void; };
 template <class Op, class X, class Y, class = void> struct CanOp : std::false_type {};
 template <class Op, class X, class Y>
 struct CanOp<Op, X, Y, typename VoidT<decltype(Op::f(std::declval<const X&>(), std::declval<const Y&>()))>::type> : std::true_type {};
+
+// the same detection with the operands in a given value category (X, Y may be reference / const types)
+#define C17_OPV(NAME, SYM) \
+    template <class X, class Y, class = void> struct NAME##V : std::false_type {}; \
+    template <class X, class Y> struct NAME##V<X, Y, typename VoidT<decltype(std::declval<X>() SYM std::declval<Y>())>::type> : std::true_type {};
+C17_OPV(OpEq, ==) C17_OPV(OpNe, !=) C17_OPV(OpLt, <) C17_OPV(OpLe, <=) C17_OPV(OpGt, >) C17_OPV(OpGe, >=) C17_OPV(OpAdd, +) C17_OPV(OpSub, -)
+template <class Op, class X, class Y> struct CanOpV;
+#define C17_OPVSEL(NAME) template <class X, class Y> struct CanOpV<NAME, X, Y> : NAME##V<X, Y> {};
+C17_OPVSEL(OpEq) C17_OPVSEL(OpNe) C17_OPVSEL(OpLt) C17_OPVSEL(OpLe) C17_OPVSEL(OpGt) C17_OPVSEL(OpGe) C17_OPVSEL(OpAdd) C17_OPVSEL(OpSub)
 
 template <class X, class R0> struct Mk;
 template <class R, class P, class R0> struct Mk<std::chrono::duration<R, P>, R0> {
@@ -729,6 +784,18 @@ struct PI {
         s += b01(CanOp<OpEq, L, Rr>::value); s += b01(CanOp<OpNe, L, Rr>::value); s += b01(CanOp<OpLt, L, Rr>::value);
         s += b01(CanOp<OpLe, L, Rr>::value); s += b01(CanOp<OpGt, L, Rr>::value); s += b01(CanOp<OpGe, L, Rr>::value);
         s += b01(CanOp<OpAdd, L, Rr>::value); s += b01(CanOp<OpSub, L, Rr>::value);
+        {   // the same eight operators with the duration operand as a non-const lvalue / as a const rvalue
+            using DL = typename std::conditional<Side == 0, L, D1&>::type;  using DR = typename std::conditional<Side == 0, D2&, Rr>::type;
+            using CL = typename std::conditional<Side == 0, L, const D1>::type;  using CR_ = typename std::conditional<Side == 0, const D2, Rr>::type;
+            s += " acc_lv=";
+            s += b01(CanOpV<OpEq, DL, DR>::value); s += b01(CanOpV<OpNe, DL, DR>::value); s += b01(CanOpV<OpLt, DL, DR>::value);
+            s += b01(CanOpV<OpLe, DL, DR>::value); s += b01(CanOpV<OpGt, DL, DR>::value); s += b01(CanOpV<OpGe, DL, DR>::value);
+            s += b01(CanOpV<OpAdd, DL, DR>::value); s += b01(CanOpV<OpSub, DL, DR>::value);
+            s += " acc_crv=";
+            s += b01(CanOpV<OpEq, CL, CR_>::value); s += b01(CanOpV<OpNe, CL, CR_>::value); s += b01(CanOpV<OpLt, CL, CR_>::value);
+            s += b01(CanOpV<OpLe, CL, CR_>::value); s += b01(CanOpV<OpGt, CL, CR_>::value); s += b01(CanOpV<OpGe, CL, CR_>::value);
+            s += b01(CanOpV<OpAdd, CL, CR_>::value); s += b01(CanOpV<OpSub, CL, CR_>::value);
+        }
         s += SF::str();
         s += " ch_period=" + std::to_string(ChSum::period::num) + "/" + std::to_string(ChSum::period::den);
         s += SF::template Diff<CanOp<OpSub, L, Rr>::value>::str();
@@ -873,6 +940,16 @@ struct Acc {
                (int)std::is_convertible<typename S::Dur, typename T::Dur>::value,
                (int)std::is_convertible<typename S::GQ, typename T::Dur>::value,
                (int)std::is_convertible<typename S::Dur, typename T::NQ>::value);
+        // the same question for every cv-ref form of the duration: const D, const D&, D&&, const D&&
+        printf(" dur_forms=%d%d%d%d qty_forms=%d%d%d%d",
+               (int)std::is_convertible<const typename S::Dur, typename T::GQ>::value,
+               (int)std::is_convertible<const typename S::Dur&, typename T::GQ>::value,
+               (int)std::is_convertible<typename S::Dur&&, typename T::GQ>::value,
+               (int)std::is_convertible<const typename S::Dur&&, typename T::GQ>::value,
+               (int)std::is_convertible<const typename S::CQ, typename T::GQ>::value,
+               (int)std::is_convertible<const typename S::CQ&, typename T::GQ>::value,
+               (int)std::is_convertible<typename S::CQ&&, typename T::GQ>::value,
+               (int)std::is_convertible<const typename S::CQ&&, typename T::GQ>::value);
         printf(" dq_val="); Vals<typename T::GQ, typename S::Dur>::p();
         printf(" dn_val="); Vals<typename T::NQ, typename S::Dur>::p();
         printf(" qd_val="); Vals<typename T::Dur, typename S::GQ>::p();
@@ -1371,6 +1448,20 @@ def check_type_info(t, m, r, cfg, violations, stats, samples):
     for kq in ("conv_d2q", "conv_q2d", "conv_d2g", "conv_g2d"):
         if r[kq] != "1":
             bad.append(f"{kq}: duration and its corresponding quantity are not implicitly interconvertible")
+    dur = f"std::chrono::duration<{CTYPE[t['rep']]}, std::ratio<{t['n']}, {t['d']}>>"
+    forms = ["D", "D&", "const D&", "D&&", "const D", "const D&&"]
+    for form, bit in zip(forms, r["asq_forms"]):
+        if bit != "1":
+            bad.append(f"value-category: `au::as_quantity(x)` is rejected for x of type `{form}` with D = {dur} "
+                       f"(e.g. the result of a function returning `{form}`)")
+    for key, tgt in (("conv_forms_c", "the corresponding Quantity"), ("conv_forms_g", "Quantity<Seconds * mag<num>/mag<den>, Rep>"),
+                     ("conv_forms_n", "the named-unit Quantity")):
+        for form, bit in zip(forms, r[key]):
+            if bit != "1":
+                bad.append(f"value-category: std::is_convertible<{form}, {tgt}> is false with D = {dur}, although the "
+                           f"corresponding quantity is accepted")
+    if r["cons_forms"] != "1111":
+        bad.append(f"value-category: is_constructible / is_assignable from `const D` / `const D&&` = {r['cons_forms']} with D = {dur}")
     if parse_cxx(t["rep"], r["zero"]) != 0 or r["zeroq_eq"] != "1":
         bad.append(f"ZERO converts to a duration with count {r['zero']} (or does not compare equal to the zero quantity)")
     for b in bad:
@@ -1386,7 +1477,8 @@ def check_type_info(t, m, r, cfg, violations, stats, samples):
 # every entry point of the round trip: as_quantity on const lvalue / lvalue / rvalue, implicit constructor and
 # assignment from the duration, as_chrono_duration, conversion operator and assignment to the duration, and the same
 # through the generic (g) and the library's named (n) spelling of the unit
-RT_ROUTES = ("asq", "asq_lv", "asq_rv", "ctor", "assign_q", "back", "conv", "assign_d", "gctor", "gconv", "gback",
+RT_ROUTES = ("asq", "asq_lv", "asq_rv", "asq_xv", "asq_crv", "asq_cxv", "ctor_lv", "ctor_xv", "ctor_crv", "ctor_cxv", "gctor_crv",
+             "ctor", "assign_q", "back", "conv", "assign_d", "gctor", "gconv", "gback",
              "nctor", "nconv", "nback")
 
 
@@ -1486,6 +1578,15 @@ def check_pair_info(pr, r, cfg, violations, stats):
                                    f"call the expression well-formed",
                            "class": f"oracle-opaccept-{op}-{'qd' if pr['side'] == 0 else 'dq'}",
                            "rec": dict(base, kind="opaccept", op=op, expression=expr, shape=side_code_of(pr), acc=acc)})
+    for key, form in (("acc_lv", "a non-const lvalue"), ("acc_crv", "a const rvalue (function returning const D)")):
+        for op, b0, b1 in zip(OPS, acc, r.get(key, acc)):
+            if b0 == "1" and b1 != "1":
+                expr = expression_text(pr, op)
+                violations.append({"what": f"`{expr}` is accepted but rejected by {cfg} when the duration operand is {form}",
+                                   "class": f"oracle-opaccept-valuecat-{key}",
+                                   "rec": dict(base, kind="opaccept", op=op, expression=expr, value_category=form, acc=acc,
+                                               acc_form=r.get(key))})
+    stats["operator_acceptance_checks"] += 16
     if r["au_unit"] == "-":
         return
     if r["crep_same"] != "1" or r["crep_is_common"] != "1":
@@ -1617,6 +1718,14 @@ def check_accept(t, s, r, m, cfg, violations, stats, samples):
         violations.append({"what": f"implicit acceptance {r['dur']} contradicts the documented rule (integer factor k with 2147*k <= max, "
                                    f"floats always): expected {want}", "class": "oracle-accept-formula",
                            "rec": dict(base, observable="accept-formula", impl=r)})
+    if r["dur_forms"] != r["dur"] * 4 or r["qty_forms"] != r["qty"] * 4:
+        forms = ["const D", "const D&", "D&&", "const D&&"]
+        which = [f for f, b in zip(forms, r["dur_forms"]) if b != r["dur"]]
+        violations.append({"what": f"acceptance depends on the value category of the source: is_convertible<D, Q> = {r['dur']} but for "
+                                   f"{', '.join(which) or 'the corresponding quantity forms'} it is "
+                                   f"{r['dur_forms']} (duration forms const D, const D&, D&&, const D&&) / {r['qty_forms']} (quantity forms); "
+                                   f"D = duration {type_key(s)}, Q = Quantity {type_key(t)}",
+                           "class": "oracle-accept-valuecat", "rec": dict(base, observable="accept-value-category", impl=r)})
     if r["back"] != r["dur"] or r["durn"] != r["dur"]:
         violations.append({"what": f"acceptance depends on the spelling / direction: duration -> generic-unit quantity {r['dur']}, "
                                    f"duration -> named-unit quantity {r['durn']}, quantity -> duration (conversion operator) {r['back']}",
